@@ -75,7 +75,7 @@ def run(rep):
     # bounded stand-in for the query dispatch (outside Verus: Box<dyn Iterator>, closures, BTreeSet::range; CBMC needs
     # > 60 min for a 3-triple store): exhaustive native enumeration over a small domain, labelled as such
     native.bounded_stand_in(rep, ID, "c01", [], "c01_histories_and_shapes",
-                            "every history of <= 3 insert/remove operations over 12 quads on the four default store types, after each operation all 16 (8) bound/unbound pattern shapes and 14 (8) queries with other matcher kinds (Not of one / several / an unknown constant, several constants, closures, TermKind, Option, graph-name Not / closure) against a set oracle; contains() for every quad of the universe and the term enumerations (subjects ... literals, graph_names; as sets) after every step; remove_matching / retain_matching (11 matcher combinations) and insert_all / remove_all of streams with duplicates from every initial content of <= 3 quads on Fast/Light datasets, HashSet<Spog> and BTreeSet<Spog>, contents and counts against the oracle; index-full scenario on the four 16-bit stores",
+                            "every history of <= 3 insert/remove operations over 12 quads on the four default store types, after each operation all 16 (8) bound/unbound pattern shapes and 14 (8) queries with other matcher kinds (Not of one / several / an unknown constant, several constants, closures, TermKind, Option, graph-name Not / closure) against a set oracle; contains() for every quad of the universe and the term enumerations (subjects ... literals, graph_names; as sets) after every step; remove_matching / retain_matching (11 matcher combinations) and insert_all / remove_all of streams with duplicates from every initial content of <= 3 quads on Fast/Light datasets, HashSet<Spog> and BTreeSet<Spog>, contents and counts against the oracle; index-full scenario on the four 16-bit stores (a new term is refused and leaves nothing behind; triples over known terms are still inserted / re-inserted / removed with the right flags)",
                             "histories <= 3 ops, 12 quads, constants from the operation's quad", "triples_matching / quads_matching dispatch of GenericFast/LightGraph/Dataset (inmem/src/graph.rs, dataset.rs), SimpleTermIndex (inmem/src/index.rs), the matcher implementations they consult (api/src/term/matcher/*.rs: constant(), matches())",
                             "./check C01 --replay <this file>")
     # the same enumeration compiled WITHOUT debug assertions (as in a release build): code placed inside a
